@@ -146,7 +146,13 @@ static std::string step(const std::vector<std::string>& wfull) {
     Obj* u = live(I(1), true);
     Obj* s = live(I(2), false);
     if (!u || !s) return "dead";
-    try { u->un->update(*s->sk); }
+    // every second union update goes through the RVALUE overload (on a temporary copy, so the source object stays usable):
+    // the two overloads walk the input with different iterators and must feed the gadget the same (item, weight, mark) triples
+    static unsigned n_umerge = 0;
+    try {
+      if (++n_umerge % 2 == 0) { auto tmp(*s->sk); u->un->update(std::move(tmp)); }
+      else u->un->update(*s->sk);
+    }
     catch (const std::exception& e) { put_dead(I(1)); return thrown(e); }
     return "U c=" + std::to_string(src.used_u) + "," + std::to_string(src.used_i);
   }
